@@ -64,79 +64,147 @@ theorem decodeWith_enc (coll : Order → Bytes → R (List G × Bytes)) (o : Ord
     simp [tcode, wkb_pointType, wkb_multiPointType, wkb_lineStringType, wkb_multiLineStringType,
       wkb_polygonType, wkb_multiPolygonType, wkb_geometryCollectionType, canon, this]
 
-theorem encList_length_mem (o : Order) (gs : List G) (g : G) (h : g ∈ gs) :
-    (encGeom o 0 g).length ≤ (encGeom.encList o gs).length := by
-  induction gs with
-  | nil => cases h
-  | cons x xs ih =>
-    simp only [encGeom.encList, List.length_append]
-    rcases List.mem_cons.1 h with h | h
-    · subst h; omega
-    · have := ih h; omega
+/-- a collection whose reader fails: `Decode` passes the error on -/
+theorem decodeWith_enc_coll_err (coll : Order → Bytes → R (List G × Bytes)) (o : Order) (srid : Nat)
+    (gs : List G) (rest : Bytes) (hs : srid < 2 ^ 32) (e : Err)
+    (hcoll : coll o (body o (.collection gs) ++ rest) = .err e) :
+    decodeWith coll (encGeom o srid (.collection gs) ++ rest) = .err e := by
+  rw [encGeom_eq, List.cons_append, List.append_assoc]
+  unfold decodeWith
+  rw [readBOT_hdr o _ srid _ (tcode_TC _) hs]
+  simp [tcode, wkb_pointType, wkb_multiPointType, wkb_lineStringType, wkb_multiLineStringType,
+    wkb_polygonType, wkb_multiPolygonType, wkb_geometryCollectionType, hcoll]
 
-theorem collLoop_enc (dec : Bytes → R (G × Nat × Bytes)) (o : Order) (gs : List G) (rest : Bytes)
-    (h : ∀ g ∈ gs, ∀ rest', dec (encGeom o 0 g ++ rest') = .ok (canon g, 0, rest')) :
-    collLoop dec gs.length (encGeom.encList o gs ++ rest) = .ok (canon.canonList gs, rest) := by
+/-! ### nesting depth -/
+
+theorem collDepth_collection (gs : List G) : collDepth (.collection gs) = 1 + collDepth.collDepthList gs := by
+  simp only [collDepth]
+
+theorem collDepth_of_not_collection {g : G} (h : ∀ gs, g ≠ .collection gs) : collDepth g = 0 := by
+  cases g <;> first | rfl | exact absurd rfl (h _)
+
+theorem collDepthList_le {gs : List G} {n : Nat} :
+    collDepth.collDepthList gs ≤ n ↔ ∀ g ∈ gs, collDepth g ≤ n := by
   induction gs with
-  | nil => rfl
+  | nil => simp [collDepth.collDepthList]
+  | cons x xs ih =>
+    simp only [collDepth.collDepthList, Nat.max_le, ih, List.mem_cons, forall_eq_or_imp]
+
+/-- `Decode` on an encoding, given what the collection reader does on its body: the value, or the
+    reader's error (which only a collection can run into) -/
+theorem decodeWith_enc_char (coll : Order → Bytes → R (List G × Bytes)) (o : Order) (srid : Nat) (g : G)
+    (rest : Bytes) (hw : WF32 g) (hs : srid < 2 ^ 32) (e : Err) (P : Prop) [Decidable P]
+    (hcoll : ∀ gs, g = .collection gs →
+      coll o (body o g ++ rest) = if P then .ok (canon.canonList gs, rest) else .err e)
+    (hP : (∀ gs, g ≠ .collection gs) → P) :
+    decodeWith coll (encGeom o srid g ++ rest) = if P then .ok (canon g, srid, rest) else .err e := by
+  by_cases hp : P
+  · rw [if_pos hp]
+    apply decodeWith_enc coll o srid g rest hw hs
+    intro gs hgs
+    rw [hcoll gs hgs, if_pos hp]
+  · rw [if_neg hp]
+    cases g with
+    | collection gs =>
+      apply decodeWith_enc_coll_err coll o srid gs rest hs e
+      rw [hcoll gs rfl, if_neg hp]
+    | _ => exact absurd (hP (fun gs h => by cases h)) hp
+
+theorem collLoop_enc_char (dec : Bytes → R (G × Nat × Bytes)) (o : Order) (left : Nat) (e : Err)
+    (gs : List G) (rest : Bytes)
+    (h : ∀ g ∈ gs, ∀ rest', dec (encGeom o 0 g ++ rest') =
+      if collDepth g ≤ left then .ok (canon g, 0, rest') else .err e) :
+    collLoop dec gs.length (encGeom.encList o gs ++ rest) =
+      if collDepth.collDepthList gs ≤ left then .ok (canon.canonList gs, rest) else .err e := by
+  induction gs with
+  | nil => simp [collLoop, collDepth.collDepthList, encGeom.encList, canon.canonList]
   | cons x xs ih =>
     have ih' := ih (fun y hy => h y (by simp [hy]))
-    simp only [encGeom.encList, List.length_cons, collLoop, List.append_assoc, h x (by simp), ih',
-      canon.canonList]
+    simp only [encGeom.encList, List.length_cons, collLoop, List.append_assoc, h x (by simp),
+      collDepth.collDepthList, Nat.max_le, canon.canonList]
+    by_cases hx : collDepth x ≤ left
+    · simp only [hx, if_true, true_and, ih']
+      by_cases hxs : collDepth.collDepthList xs ≤ left
+      · simp only [hxs, if_true]
+      · simp only [hxs, if_false]
+    · simp only [hx, if_false, false_and]
 
-theorem readCollectionF_enc (fuel : Nat) : ∀ (o : Order) (gs : List G) (rest : Bytes),
-    gs.length < 2 ^ 32 → (∀ g ∈ gs, WF32 g) → 4 + (encGeom.encList o gs).length ≤ fuel →
-    readCollectionF fuel o (u32 o gs.length ++ (encGeom.encList o gs ++ rest)) =
-      .ok (canon.canonList gs, rest) := by
-  induction fuel with
-  | zero => intro o gs rest _ _ h; omega
-  | succ fuel ih =>
-    intro o gs rest hl hw hf
+/-- `readCollection` with `left` levels still allowed, on the body of an encoded collection: the
+    canonical members when the collection (one level) and its members fit, `ErrNestingTooDeep` if not. -/
+theorem readCollectionF_enc (left : Nat) : ∀ (o : Order) (gs : List G) (rest : Bytes),
+    gs.length < 2 ^ 32 → (∀ g ∈ gs, WF32 g) →
+    readCollectionF left o (u32 o gs.length ++ (encGeom.encList o gs ++ rest)) =
+      if 1 + collDepth.collDepthList gs ≤ left then .ok (canon.canonList gs, rest)
+      else .err .nestingTooDeep := by
+  induction left with
+  | zero =>
+    intro o gs rest _ _
+    rw [if_neg (by omega)]
+    rfl
+  | succ left ih =>
+    intro o gs rest hl hw
     simp only [readCollectionF, readU32_u32' _ _ _ hl]
-    apply collLoop_enc
-    intro g hg rest'
-    apply decodeWith_enc _ o 0 g rest' (hw g hg) (by decide)
-    intro gs' hgs'
-    subst hgs'
-    have hwg := hw _ hg
-    simp only [WF32] at hwg
-    simp only [body, List.append_assoc]
-    apply ih o gs' rest' hwg.1 hwg.2
-    have h1 := encList_length_mem o gs _ hg
-    rw [encGeom_eq] at h1
-    simp only [body, tcode, hdr_zero, List.length_cons, List.length_append, u32_length] at h1
-    omega
+    rw [collLoop_enc_char _ o left .nestingTooDeep gs rest]
+    · by_cases hd : collDepth.collDepthList gs ≤ left
+      · rw [if_pos hd, if_pos (by omega)]
+      · rw [if_neg hd, if_neg (by omega)]
+    · intro g hg rest'
+      apply decodeWith_enc_char _ o 0 g rest' (hw g hg) (by decide)
+      · intro gs' hgs'
+        subst hgs'
+        have hwg := hw _ hg
+        simp only [WF32] at hwg
+        simp only [body, List.append_assoc, collDepth_collection]
+        exact ih o gs' rest' hwg.1 hwg.2
+      · intro hn
+        rw [collDepth_of_not_collection hn]
+        exact Nat.zero_le _
 
+/-- The stream decoder on an encoding, completely: the canonical value when the collections of `g` are
+    nested no deeper than the levels left, `ErrNestingTooDeep` otherwise. -/
+theorem decodeStream_enc_char (o : Order) (srid : Nat) (g : G) (hw : WF32 g) (hs : srid < 2^32) (rest : Bytes)
+    (left : Nat) :
+    decodeStream left (encGeom o srid g ++ rest) =
+      if collDepth g ≤ left then .ok (canon g, srid, rest) else .err .nestingTooDeep := by
+  unfold decodeStream
+  apply decodeWith_enc_char _ o srid g rest hw hs
+  · intro gs hgs
+    subst hgs
+    simp only [WF32] at hw
+    simp only [body, List.append_assoc, collDepth_collection]
+    exact readCollectionF_enc left o gs rest hw.1 hw.2
+  · intro hn
+    rw [collDepth_of_not_collection hn]
+    exact Nat.zero_le _
 
 theorem decodeStream_enc_aux (o : Order) (srid : Nat) (g : G) (hw : WF32 g) (hs : srid < 2^32) (rest : Bytes)
-    (fuel : Nat) (hf : (encGeom o srid g).length ≤ fuel) :
-    decodeStream fuel (encGeom o srid g ++ rest) = .ok (canon g, srid, rest) := by
-  unfold decodeStream
-  apply decodeWith_enc _ o srid g rest hw hs
-  intro gs hgs
-  subst hgs
-  simp only [WF32] at hw
-  simp only [body, List.append_assoc]
-  apply readCollectionF_enc fuel o gs rest hw.1 hw.2
-  rw [encGeom_eq] at hf
-  have := hdr_length_ge o (tcode (Geom.collection gs)) srid
-  simp only [body, List.length_cons, List.length_append, u32_length] at hf
-  omega
+    (left : Nat) (hd : collDepth g ≤ left) :
+    decodeStream left (encGeom o srid g ++ rest) = .ok (canon g, srid, rest) := by
+  rw [decodeStream_enc_char o srid g hw hs rest left, if_pos hd]
 
-theorem decode_enc_aux (o : Order) (srid : Nat) (g : G) (hw : WF32 g) (hs : srid < 2^32) :
-    decode (encGeom o srid g) = .ok (canon g, srid) := by
-  have := decodeStream_enc_aux o srid g hw hs [] _ (Nat.le_refl _)
+theorem decode_enc_char (o : Order) (srid : Nat) (g : G) (hw : WF32 g) (hs : srid < 2^32) :
+    decode (encGeom o srid g) =
+      if collDepth g ≤ wkb_MaxCollectionDepth then .ok (canon g, srid) else .err .nestingTooDeep := by
+  have := decodeStream_enc_char o srid g hw hs [] wkb_MaxCollectionDepth
   rw [List.append_nil] at this
-  simp only [decode, this]
+  by_cases hd : collDepth g ≤ wkb_MaxCollectionDepth
+  · rw [if_pos hd] at this ⊢
+    simp only [decode, this]
+  · rw [if_neg hd] at this ⊢
+    simp only [decode, this]
 
-theorem unmarshal_enc_aux (o : Order) (srid : Nat) (g : G) (hw : WF32 g) (hs : srid < 2^32) :
+theorem decode_enc_aux (o : Order) (srid : Nat) (g : G) (hw : WF32 g) (hs : srid < 2^32)
+    (hd : collDepth g ≤ wkb_MaxCollectionDepth) :
+    decode (encGeom o srid g) = .ok (canon g, srid) := by
+  rw [decode_enc_char o srid g hw hs, if_pos hd]
+
+/-- every kind but a collection: the byte decoder returns the canonical value -/
+theorem unmarshal_enc_leaf (o : Order) (srid : Nat) (g : G) (hw : WF32 g) (hs : srid < 2^32)
+    (hg : ∀ gs, g ≠ .collection gs) :
     unmarshal (encGeom o srid g) = .ok (canon g, srid) := by
-  have hd := decode_enc_aux o srid g hw hs
-  obtain ⟨n, hn⟩ := encGeom_length_succ o srid g
   unfold unmarshal
   rw [unmarshalBOT_enc o srid g hs]
   simp only []
-  rw [hn]
   cases g with
   | point p =>
     have := unmarshalPoint_encPt o p []
@@ -144,7 +212,7 @@ theorem unmarshal_enc_aux (o : Order) (srid : Nat) (g : G) (hw : WF32 g) (hs : s
     simp [tcode, body, wkb_pointType, canon, this]
   | multiPoint ps =>
     simp only [WF32] at hw
-    have := unmarshalMultiPoint_enc n o ps [] hw
+    have := unmarshalMultiPoint_enc o ps [] hw
     simp only [List.append_nil] at this
     simp [tcode, body, wkb_pointType, wkb_multiPointType, canon, this]
   | lineString ps =>
@@ -154,7 +222,7 @@ theorem unmarshal_enc_aux (o : Order) (srid : Nat) (g : G) (hw : WF32 g) (hs : s
     simp [tcode, body, wkb_pointType, wkb_multiPointType, wkb_lineStringType, canon, this]
   | multiLineString ls =>
     simp only [WF32] at hw
-    have := unmarshalMultiLineString_enc n o ls [] hw.1 hw.2
+    have := unmarshalMultiLineString_enc o ls [] hw.1 hw.2
     simp only [List.append_nil] at this
     simp [tcode, body, wkb_pointType, wkb_multiPointType, wkb_lineStringType, wkb_multiLineStringType,
       canon, this]
@@ -172,7 +240,7 @@ theorem unmarshal_enc_aux (o : Order) (srid : Nat) (g : G) (hw : WF32 g) (hs : s
       wkb_polygonType, canon, this]
   | multiPolygon ps =>
     simp only [WF32] at hw
-    have := unmarshalMultiPolygon_enc n o ps [] hw.1 hw.2
+    have := unmarshalMultiPolygon_enc o ps [] hw.1 hw.2
     simp only [List.append_nil] at this
     simp [tcode, body, wkb_pointType, wkb_multiPointType, wkb_lineStringType, wkb_multiLineStringType,
       wkb_polygonType, wkb_multiPolygonType, canon, this]
@@ -181,33 +249,68 @@ theorem unmarshal_enc_aux (o : Order) (srid : Nat) (g : G) (hw : WF32 g) (hs : s
     simp only [List.append_nil] at this
     simp [tcode, body, wkb_pointType, wkb_multiPointType, wkb_lineStringType, wkb_multiLineStringType,
       wkb_polygonType, canon, this]
+  | collection gs => exact absurd rfl (hg gs)
+
+/-- a collection: what the stream decoder says (EOF errors would be mapped to ErrNotWKB) -/
+theorem unmarshal_enc_coll_ok (o : Order) (srid : Nat) (gs : List G) (hs : srid < 2^32) (g : G) (s' : Nat)
+    (h : decode (encGeom o srid (.collection gs)) = .ok (g, s')) :
+    unmarshal (encGeom o srid (.collection gs)) = .ok (g, srid) := by
+  unfold unmarshal
+  rw [unmarshalBOT_enc o srid _ hs]
+  simp [tcode, wkb_pointType, wkb_multiPointType, wkb_lineStringType, wkb_multiLineStringType,
+    wkb_polygonType, wkb_multiPolygonType, wkb_geometryCollectionType, h]
+
+theorem unmarshal_enc_coll_deep (o : Order) (srid : Nat) (gs : List G) (hs : srid < 2^32)
+    (h : decode (encGeom o srid (.collection gs)) = .err .nestingTooDeep) :
+    unmarshal (encGeom o srid (.collection gs)) = .err .nestingTooDeep := by
+  unfold unmarshal
+  rw [unmarshalBOT_enc o srid _ hs]
+  simp [tcode, wkb_pointType, wkb_multiPointType, wkb_lineStringType, wkb_multiLineStringType,
+    wkb_polygonType, wkb_multiPolygonType, wkb_geometryCollectionType, h]
+
+/-- The byte decoder on an encoding, completely. -/
+theorem unmarshal_enc_char (o : Order) (srid : Nat) (g : G) (hw : WF32 g) (hs : srid < 2^32) :
+    unmarshal (encGeom o srid g) =
+      if collDepth g ≤ wkb_MaxCollectionDepth then .ok (canon g, srid) else .err .nestingTooDeep := by
+  cases g with
   | collection gs =>
-    simp [tcode, wkb_pointType, wkb_multiPointType, wkb_lineStringType, wkb_multiLineStringType,
-      wkb_polygonType, wkb_multiPolygonType, wkb_geometryCollectionType, hd]
+    have hd := decode_enc_char o srid _ hw hs
+    by_cases hdep : collDepth (.collection gs) ≤ wkb_MaxCollectionDepth
+    · rw [if_pos hdep] at hd ⊢
+      exact unmarshal_enc_coll_ok o srid gs hs _ _ hd
+    · rw [if_neg hdep] at hd ⊢
+      exact unmarshal_enc_coll_deep o srid gs hs hd
+  | _ =>
+    rw [unmarshal_enc_leaf o srid _ hw hs (fun gs h => by cases h), if_pos]
+    simp only [collDepth]; exact Nat.zero_le _
+
+theorem unmarshal_enc_aux (o : Order) (srid : Nat) (g : G) (hw : WF32 g) (hs : srid < 2^32)
+    (hd : collDepth g ≤ wkb_MaxCollectionDepth) :
+    unmarshal (encGeom o srid g) = .ok (canon g, srid) := by
+  rw [unmarshal_enc_char o srid g hw hs, if_pos hd]
 
 /-! ### the Scan table -/
 
 theorem scanDest_table (bnd : BoundFn) (d : Dest) (o : Order) (srid : Nat) (g : G) (hw : WF32 g)
-    (hs : srid < 2^32) :
+    (hs : srid < 2^32) (hdep : collDepth g ≤ wkb_MaxCollectionDepth) :
     scanDest bnd d (encGeom o srid g) =
       (match coerce bnd d (canon g) with
        | some v => .ok (v, srid)
        | none => .err .incorrectGeometry) := by
-  have hu := unmarshal_enc_aux o srid g hw hs
-  have hd := decode_enc_aux o srid g hw hs
+  have hu := unmarshal_enc_aux o srid g hw hs hdep
+  have hd := decode_enc_aux o srid g hw hs hdep
   have hb := unmarshalBOT_enc o srid g hs
-  obtain ⟨n, hn⟩ := encGeom_length_succ o srid g
   cases d with
   | any => simp only [scanDest, hu, coerce]
   | point =>
-    simp only [scanDest, hn, scanPoint_def]
+    simp only [scanDest, scanPoint_def]
     cases g with
     | point p =>
       rw [scanSingle_enc_single 1 4 _ _ o srid _ p hs rfl (body_point o p)]
       simp [canon, coerce]
     | multiPoint ps =>
       simp only [WF32] at hw
-      rw [scanSingle_enc_multi 1 4 _ _ o srid _ ps hs rfl (by decide) (body_multiPoint n o ps hw)]
+      rw [scanSingle_enc_multi 1 4 _ _ o srid _ ps hs rfl (by decide) (body_multiPoint o ps hw)]
       match ps with
       | [] => simp [canon, coerce]
       | [_] => simp [canon, coerce]
@@ -219,7 +322,7 @@ theorem scanDest_table (bnd : BoundFn) (d : Dest) (o : Order) (srid : Nat) (g : 
     simp only [scanDest, hu]
     cases g <;> simp [canon, coerce]
   | lineString =>
-    simp only [scanDest, hn, scanLineString_def]
+    simp only [scanDest, scanLineString_def]
     cases g with
     | lineString ps =>
       simp only [WF32] at hw
@@ -227,7 +330,7 @@ theorem scanDest_table (bnd : BoundFn) (d : Dest) (o : Order) (srid : Nat) (g : 
       simp [canon, coerce]
     | multiLineString ls =>
       simp only [WF32] at hw
-      rw [scanSingle_enc_multi 2 5 _ _ o srid _ ls hs rfl (by decide) (body_multiLineString n o ls hw.1 hw.2)]
+      rw [scanSingle_enc_multi 2 5 _ _ o srid _ ls hs rfl (by decide) (body_multiLineString o ls hw.1 hw.2)]
       match ls with
       | [] => simp [canon, coerce]
       | [_] => simp [canon, coerce]
@@ -236,14 +339,14 @@ theorem scanDest_table (bnd : BoundFn) (d : Dest) (o : Order) (srid : Nat) (g : 
       rw [scanSingle_enc_other 2 5 _ _ o srid _ hs (by simp [tcode]) (by simp [tcode])]
       simp [canon, coerce]
   | multiLineString =>
-    simp only [scanDest, hb, hn]
+    simp only [scanDest, hb]
     cases g with
     | lineString ps =>
       simp only [WF32] at hw
       simp [tcode, wkb_lineStringType, body_lineString o ps hw, canon, coerce]
     | multiLineString ls =>
       simp only [WF32] at hw
-      simp [tcode, wkb_lineStringType, wkb_multiLineStringType, body_multiLineString n o ls hw.1 hw.2,
+      simp [tcode, wkb_lineStringType, wkb_multiLineStringType, body_multiLineString o ls hw.1 hw.2,
         canon, coerce]
     | point _ | multiPoint _ | ring _ | polygon _ | multiPolygon _ | bound _ _ | collection _ =>
       simp [tcode, wkb_lineStringType, wkb_multiLineStringType, canon, coerce]
@@ -257,7 +360,7 @@ theorem scanDest_table (bnd : BoundFn) (d : Dest) (o : Order) (srid : Nat) (g : 
       | _ :: _ :: _ => simp [canon, coerce]
     | _ => simp [canon, coerce]
   | polygon =>
-    simp only [scanDest, hn, scanPolygon_def]
+    simp only [scanDest, scanPolygon_def]
     cases g with
     | ring r =>
       simp only [WF32] at hw
@@ -272,7 +375,7 @@ theorem scanDest_table (bnd : BoundFn) (d : Dest) (o : Order) (srid : Nat) (g : 
       simp [canon, coerce]
     | multiPolygon ps =>
       simp only [WF32] at hw
-      rw [scanSingle_enc_multi 3 6 _ _ o srid _ ps hs rfl (by decide) (body_multiPolygon n o ps hw.1 hw.2)]
+      rw [scanSingle_enc_multi 3 6 _ _ o srid _ ps hs rfl (by decide) (body_multiPolygon o ps hw.1 hw.2)]
       match ps with
       | [] => simp [canon, coerce]
       | [_] => simp [canon, coerce]
@@ -281,7 +384,7 @@ theorem scanDest_table (bnd : BoundFn) (d : Dest) (o : Order) (srid : Nat) (g : 
       rw [scanSingle_enc_other 3 6 _ _ o srid _ hs (by simp [tcode]) (by simp [tcode])]
       simp [canon, coerce]
   | multiPolygon =>
-    simp only [scanDest, hb, hn]
+    simp only [scanDest, hb]
     cases g with
     | ring r =>
       simp only [WF32] at hw
@@ -293,7 +396,7 @@ theorem scanDest_table (bnd : BoundFn) (d : Dest) (o : Order) (srid : Nat) (g : 
       simp [tcode, wkb_polygonType, body_bound o a b, canon, coerce]
     | multiPolygon ps =>
       simp only [WF32] at hw
-      simp [tcode, wkb_polygonType, wkb_multiPolygonType, body_multiPolygon n o ps hw.1 hw.2, canon, coerce]
+      simp [tcode, wkb_polygonType, wkb_multiPolygonType, body_multiPolygon o ps hw.1 hw.2, canon, coerce]
     | point _ | multiPoint _ | lineString _ | multiLineString _ | collection _ =>
       simp [tcode, wkb_polygonType, wkb_multiPolygonType, canon, coerce]
   | collection =>
@@ -338,32 +441,46 @@ theorem encode_nil' (o : Order) (srid : Nat) (k : Kind) :
     encode o srid .nilIface = [] ∧ encode o srid (.nilSlice k) = [] := by
   exact ⟨rfl, rfl⟩
 
-theorem unmarshal_encode' (o : Order) (srid : Nat) (g : G) (hw : WF32 g) (hs : srid < 2^32) :
+theorem unmarshal_encode' (o : Order) (srid : Nat) (g : G) (hw : WF32 g) (hs : srid < 2^32)
+    (hd : collDepth g ≤ wkb_MaxCollectionDepth) :
     unmarshal (encGeom o srid g) = .ok (canon g, srid) := by
-  exact unmarshal_enc_aux o srid g hw hs
+  exact unmarshal_enc_aux o srid g hw hs hd
 
 theorem decodeStream_encode' (o : Order) (srid : Nat) (g : G) (hw : WF32 g) (hs : srid < 2^32) (rest : Bytes)
-    (fuel : Nat) (hf : (encGeom o srid g).length ≤ fuel) :
-    decodeStream fuel (encGeom o srid g ++ rest) = .ok (canon g, srid, rest) := by
-  exact decodeStream_enc_aux o srid g hw hs rest fuel hf
+    (left : Nat) (hd : collDepth g ≤ left) :
+    decodeStream left (encGeom o srid g ++ rest) = .ok (canon g, srid, rest) := by
+  exact decodeStream_enc_aux o srid g hw hs rest left hd
 
-theorem decode_encode' (o : Order) (srid : Nat) (g : G) (hw : WF32 g) (hs : srid < 2^32) :
+theorem decode_encode' (o : Order) (srid : Nat) (g : G) (hw : WF32 g) (hs : srid < 2^32)
+    (hd : collDepth g ≤ wkb_MaxCollectionDepth) :
     decode (encGeom o srid g) = .ok (canon g, srid) := by
-  exact decode_enc_aux o srid g hw hs
+  exact decode_enc_aux o srid g hw hs hd
 
-theorem scan_table' (bnd : BoundFn) (d : Dest) (o : Order) (srid : Nat) (g : G) (hw : WF32 g) (hs : srid < 2^32) :
+theorem encode_too_deep' (o : Order) (srid : Nat) (g : G) (hw : WF32 g) (hs : srid < 2^32)
+    (hd : wkb_MaxCollectionDepth < collDepth g) :
+    decode (encGeom o srid g) = .err .nestingTooDeep ∧ unmarshal (encGeom o srid g) = .err .nestingTooDeep := by
+  rw [decode_enc_char o srid g hw hs, unmarshal_enc_char o srid g hw hs, if_neg (by omega)]
+  exact ⟨rfl, rfl⟩
+
+theorem decodeStream_too_deep' (o : Order) (srid : Nat) (g : G) (hw : WF32 g) (hs : srid < 2^32) (rest : Bytes)
+    (left : Nat) (hd : left < collDepth g) :
+    decodeStream left (encGeom o srid g ++ rest) = .err .nestingTooDeep := by
+  rw [decodeStream_enc_char o srid g hw hs rest left, if_neg (by omega)]
+
+theorem scan_table' (bnd : BoundFn) (d : Dest) (o : Order) (srid : Nat) (g : G) (hw : WF32 g) (hs : srid < 2^32)
+    (hd : collDepth g ≤ wkb_MaxCollectionDepth) :
     scan bnd d (encGeom o srid g) =
       (match coerce bnd d (canon g) with
        | some v => .ok (v, srid)
        | none => .err .incorrectGeometry) := by
   rw [scan_enc]
-  exact scanDest_table bnd d o srid g hw hs
+  exact scanDest_table bnd d o srid g hw hs hd
 
 theorem paths_agree' (bnd : BoundFn) (o : Order) (srid : Nat) (g : G) (hw : WF32 g) (hs : srid < 2^32) :
     unmarshal (encGeom o srid g) = decode (encGeom o srid g) ∧
     scan bnd .any (encGeom o srid g) = unmarshal (encGeom o srid g) := by
   refine ⟨?_, ?_⟩
-  · rw [unmarshal_enc_aux o srid g hw hs, decode_enc_aux o srid g hw hs]
+  · rw [unmarshal_enc_char o srid g hw hs, decode_enc_char o srid g hw hs]
   · rw [scan_enc]; rfl
 
 theorem framing_hex' (bnd : BoundFn) (d : Dest) (upper : Bool) (o : Order) (srid : Nat) (g : G) :
@@ -375,7 +492,7 @@ theorem framing_bslash_x' (bnd : BoundFn) (d : Dest) (o : Order) (srid : Nat) (g
   rw [scan_bslash_enc, scan_enc]
 
 theorem framing_prefix_ewkb' (bnd : BoundFn) (d : Dest) (o : Order) (srid p : Nat) (g : G) (hw : WF32 g)
-    (hs : srid < 2^32) (hp : p < 2^32) :
+    (hs : srid < 2^32) (hp : p < 2^32) (hd : collDepth g ≤ wkb_MaxCollectionDepth) :
     ewkbScan bnd true d (u32 .little p ++ encGeom o srid g) =
       (match coerce bnd d (canon g) with
        | some v => .ok (v, if srid ≠ 0 then srid else p)
@@ -383,7 +500,7 @@ theorem framing_prefix_ewkb' (bnd : BoundFn) (d : Dest) (o : Order) (srid p : Na
   obtain ⟨n, hn⟩ := encGeom_length_succ o srid g
   have hlen : ¬ (u32 .little p ++ encGeom o srid g).length < 5 := by
     simp only [List.length_append, u32_length, hn]; omega
-  simp only [ewkbScan, if_true, if_neg hlen, drop_u32, scan_table' bnd d o srid g hw hs,
+  simp only [ewkbScan, if_true, if_neg hlen, drop_u32, scan_table' bnd d o srid g hw hs hd,
     rd32_u32' _ _ _ hp]
   cases coerce bnd d (canon g) <;> rfl
 
@@ -393,7 +510,8 @@ theorem scanBuf_raw (a b : UInt8) (t : Bytes) (h92 : a ≠ 92) (h48 : a ≠ 48) 
   simp [scanBuf, h92, h48]
 
 theorem framing_prefix_wkb_partial' (bnd : BoundFn) (d : Dest) (o : Order) (p : Nat) (g : G) (hw : WF32 g)
-    (hp : p < 2^32) (h0 : p % 256 ≠ 0) (h1 : p % 256 ≠ 1) (h2 : p % 256 ≠ 48) (h3 : p % 256 ≠ 92) :
+    (hp : p < 2^32) (h0 : p % 256 ≠ 0) (h1 : p % 256 ≠ 1) (h2 : p % 256 ≠ 48) (h3 : p % 256 ≠ 92)
+    (hd : collDepth g ≤ wkb_MaxCollectionDepth) :
     wkbScan bnd d (u32 .little p ++ encGeom o 0 g) =
       (match coerce bnd d (canon g) with
        | some v => .ok v
@@ -413,7 +531,7 @@ theorem framing_prefix_wkb_partial' (bnd : BoundFn) (d : Dest) (o : Order) (p : 
     simp only [List.cons_append, List.nil_append]
     exact scanBuf_raw _ _ _ (ofNat_mod_ne p 92 (by decide) h3) (ofNat_mod_ne p 48 (by decide) h2)
   simp only [wkbScan, hscan, hbuf, sliceFrom_append _ _ _ (u32_length .little p),
-    scan_table' bnd d o 0 g hw (by decide)]
+    scan_table' bnd d o 0 g hw (by decide) hd]
   cases coerce bnd d (canon g) <;> rfl
 
 theorem wkbScan_prefix_witness' (bnd : BoundFn) :
@@ -549,20 +667,29 @@ theorem scanSingle_ok {β : Type} (P : β → Prop) (tS tM : Nat) (single : Orde
       · contradiction
   all_goals contradiction
 
-theorem unmarshalMultiF_ok {β : Type} (P : β → Prop) (tS tM : Nat) (single : Order → Bytes → R β)
-    (stride : β → Nat) (hsingle : ∀ o d x, single o d = .ok x → P x) (fuel : Nat) :
-    ∀ (o : Order) (data : Bytes) (xs : List β),
-    unmarshalMultiF tS tM single stride fuel o data = .ok xs → xs.length < 2 ^ 32 ∧ ∀ x ∈ xs, P x := by
-  induction fuel with
-  | zero => intro o data xs h; simp only [unmarshalMultiF] at h; contradiction
-  | succ fuel ih =>
-    intro o data xs h
-    simp only [unmarshalMultiF] at h
-    split at h
+theorem scanMember_ok {β : Type} (P : β → Prop) (tS : Nat) (single : Order → Bytes → R β)
+    (hsingle : ∀ o d x, single o d = .ok x → P x)
+    {data : Bytes} {x : β} {s : Nat} (h : scanMember tS single data = .ok (x, s)) : P x := by
+  unfold scanMember at h
+  split at h
+  · split at h
     · contradiction
-    · have := memberLoop_ok P _ _ (fun d x s hx =>
-        scanSingle_ok P tS tM single _ hsingle (fun o d xs hxs => (ih o d xs hxs).2) hx) _ h
-      exact ⟨by rw [this.1]; exact rd32_lt _ _, this.2⟩
+    · split at h
+      · rename_i p hp
+        injection h with h; injection h with h _; subst h
+        exact hsingle _ _ _ hp
+      all_goals contradiction
+  all_goals contradiction
+
+theorem unmarshalMultiF_ok {β : Type} (P : β → Prop) (tS : Nat) (single : Order → Bytes → R β)
+    (stride : β → Nat) (hsingle : ∀ o d x, single o d = .ok x → P x)
+    (o : Order) (data : Bytes) (xs : List β)
+    (h : unmarshalMultiF tS single stride o data = .ok xs) : xs.length < 2 ^ 32 ∧ ∀ x ∈ xs, P x := by
+  simp only [unmarshalMultiF] at h
+  split at h
+  · contradiction
+  · have := memberLoop_ok P _ _ (fun d x s hx => scanMember_ok P tS single hsingle hx) _ h
+    exact ⟨by rw [this.1]; exact rd32_lt _ _, this.2⟩
 
 /-! stream side -/
 
@@ -790,6 +917,50 @@ theorem readCollectionF_ok (fuel : Nat) : ∀ (o : Order) (s : Bytes) (gs : List
       exact ⟨by rw [this.1]; exact readU32_ok hn, this.2⟩
     all_goals contradiction
 
+/-! what a decoder returns is nested no deeper than the levels it was allowed -/
+
+theorem decodeWith_depth (coll : Order → Bytes → R (List G × Bytes)) (left : Nat)
+    (hcoll : ∀ o s gs r, coll o s = .ok (gs, r) → 1 + collDepth.collDepthList gs ≤ left)
+    {s r : Bytes} {g : G} {srid : Nat} (h : decodeWith coll s = .ok (g, srid, r)) : collDepth g ≤ left := by
+  unfold decodeWith at h
+  split at h
+  · repeat' split at h
+    all_goals first
+      | contradiction
+      | (rename_i hc
+         injection h with h; injection h with h _; subst h
+         rw [collDepth_collection]; exact hcoll _ _ _ _ hc)
+      | (injection h with h; injection h with h _; subst h
+         simp only [collDepth]; exact Nat.zero_le _)
+  all_goals contradiction
+
+theorem readCollectionF_depth (left : Nat) : ∀ (o : Order) (s : Bytes) (gs : List G) (r : Bytes),
+    readCollectionF left o s = .ok (gs, r) → 1 + collDepth.collDepthList gs ≤ left := by
+  induction left with
+  | zero => intro o s gs r h; simp only [readCollectionF] at h; contradiction
+  | succ left ih =>
+    intro o s gs r h
+    simp only [readCollectionF] at h
+    split at h
+    · have := collLoop_ok (fun g => collDepth g ≤ left) _
+        (fun s g sr r hd => decodeWith_depth _ left ih hd) _ h
+      have := collDepthList_le.2 this.2
+      omega
+    all_goals contradiction
+
+theorem decodeStream_ok_depth {left : Nat} {s r : Bytes} {g : G} {srid : Nat}
+    (h : decodeStream left s = .ok (g, srid, r)) : collDepth g ≤ left :=
+  decodeWith_depth _ left (readCollectionF_depth left) h
+
+theorem decode_ok_depth {data : Bytes} {g : G} {s : Nat} (h : decode data = .ok (g, s)) :
+    collDepth g ≤ wkb_MaxCollectionDepth := by
+  unfold decode at h
+  split at h
+  · rename_i hd
+    injection h with h; injection h with h _; subst h
+    exact decodeStream_ok_depth hd
+  all_goals contradiction
+
 theorem decode_ok {data : Bytes} {g : G} {s : Nat} (h : decode data = .ok (g, s)) : Good g := by
   unfold decode decodeStream at h
   split at h
@@ -817,7 +988,7 @@ theorem unmarshal_ok {bs : Bytes} {g : G} {srid : Nat} (h : unmarshal bs = .ok (
         split at h
         · rename_i hm
           injection h with h; injection h with h h'; subst h; subst h'
-          have := unmarshalMultiF_ok (fun _ => True) _ _ _ _ (fun _ _ _ _ => trivial) _ _ _ _ hm
+          have := unmarshalMultiF_ok (fun _ => True) _ _ _ (fun _ _ _ _ => trivial) _ _ _ hm
           exact ⟨⟨rfl, by simp only [WF32]; exact this.1⟩, hs⟩
         all_goals contradiction
       · split at h
@@ -832,8 +1003,8 @@ theorem unmarshal_ok {bs : Bytes} {g : G} {srid : Nat} (h : unmarshal bs = .ok (
             split at h
             · rename_i hm
               injection h with h; injection h with h h'; subst h; subst h'
-              have := unmarshalMultiF_ok (fun l : List (Pt UInt64) => l.length < 2 ^ 32) _ _ _ _
-                (fun _ _ _ hx => unmarshalPoints_ok hx) _ _ _ _ hm
+              have := unmarshalMultiF_ok (fun l : List (Pt UInt64) => l.length < 2 ^ 32) _ _ _
+                (fun _ _ _ hx => unmarshalPoints_ok hx) _ _ _ hm
               exact ⟨⟨rfl, by simp only [WF32]; exact this⟩, hs⟩
             all_goals contradiction
           · split at h
@@ -849,8 +1020,8 @@ theorem unmarshal_ok {bs : Bytes} {g : G} {srid : Nat} (h : unmarshal bs = .ok (
                 · rename_i hm
                   injection h with h; injection h with h h'; subst h; subst h'
                   have := unmarshalMultiF_ok
-                    (fun p : List (List (Pt UInt64)) => p.length < 2 ^ 32 ∧ ∀ r ∈ p, r.length < 2 ^ 32) _ _ _ _
-                    (fun _ _ _ hx => unmarshalPolygon_ok hx) _ _ _ _ hm
+                    (fun p : List (List (Pt UInt64)) => p.length < 2 ^ 32 ∧ ∀ r ∈ p, r.length < 2 ^ 32) _ _ _
+                    (fun _ _ _ hx => unmarshalPolygon_ok hx) _ _ _ hm
                   exact ⟨⟨rfl, by simp only [WF32]; exact this⟩, hs⟩
                 all_goals contradiction
               · split at h
@@ -863,10 +1034,27 @@ theorem unmarshal_ok {bs : Bytes} {g : G} {srid : Nat} (h : unmarshal bs = .ok (
                 · contradiction
   all_goals contradiction
 
+/-- what the byte decoder returns is nested no deeper than `MaxCollectionDepth` (only a collection,
+    decoded by the stream decoder, is nested at all) -/
+theorem unmarshal_ok_depth {bs : Bytes} {g : G} {srid : Nat} (h : unmarshal bs = .ok (g, srid)) :
+    collDepth g ≤ wkb_MaxCollectionDepth := by
+  unfold unmarshal at h
+  split at h
+  · simp only [] at h
+    repeat' split at h
+    all_goals first
+      | contradiction
+      | (rename_i hd
+         injection h with h; injection h with h _; subst h
+         exact decode_ok_depth hd)
+      | (injection h with h; injection h with h _; subst h
+         simp only [collDepth]; exact Nat.zero_le _)
+  all_goals contradiction
+
 theorem reencode_stable' (bs : Bytes) (g : G) (srid : Nat) (h : unmarshal bs = .ok (g, srid)) (o : Order) :
     unmarshal (encGeom o srid g) = .ok (g, srid) := by
   obtain ⟨⟨hc, hw⟩, hs⟩ := unmarshal_ok h
-  have := unmarshal_encode' o srid g hw hs
+  have := unmarshal_encode' o srid g hw hs (unmarshal_ok_depth h)
   rw [hc] at this
   exact this
 
